@@ -219,7 +219,8 @@ def run_impl(lines, timeout=10, extra_modules=()):
         raise RuntimeError("run with PYTHONHASHSEED=0 (./check sets it)")
     # pre-flight: a worker that dies while importing would be respawned forever
     pre = subprocess.run([sys.executable, "-c",
-                          "import sys; sys.path.insert(0, %r); import impl" % os.path.join(VERIF, "tools")],
+                          "import sys; sys.path.insert(0, %r); import impl\nfor m in %r: __import__(m)" % (
+                              os.path.join(VERIF, "tools"), tuple(extra_modules))],
                          capture_output=True, text=True,
                          env=dict(os.environ, ISO_REPO=REPO))
     if pre.returncode != 0:
